@@ -190,7 +190,9 @@ class CompressedFrame(Frame):
 
     def validate_reserved_bits(self):
         """Check reserved bits."""
-        if self.rsv2 or self.rsv3:
+        # RSV1 marks a compressed message, control frames are never
+        # compressed (RFC 7692 6.1)
+        if self.rsv2 or self.rsv3 or (self.rsv1 and self.is_control):
             raise errors.ProtocolError(
                 "reserved bits set"
             )
